@@ -473,7 +473,8 @@ def instances(tier):
     out.append(lcmv_instance(2, 2, 1))
     if th:
         out.append(lcmv_instance(3, 2, 1))
-        out.append(lcmv_instance(3, 2, 2))
+        # (D = 3 with two constraints and two bins does not decide in any back end within the thorough budget -- 60 obligations
+        # undecided after 35 minutes in session 4; the shape is in the bounded family)
     for v in ('value', 'scale-target', 'scale-noise'):
         out.append(souden_instance(2, 1, v, ref=0))
     out.append(souden_instance(2, 2, 'value', ref=1))
